@@ -25,16 +25,19 @@ def spec(tier):
     for c in ("c15_into_iter_m", "c15_into_iter_fm"):
         hs.append(Harness(c, unwind=7, timeout=max(cap, 600), optional_covers=("sink fault", "something filtered out") if c.endswith("_m") else ("sink fault",),
                           note="IntoIterator of map_items/filter_map_items over a multi-item-per-step source"))
+    for c in ("c15_to_quads", "c15_to_triples"):
+        hs.append(Harness(c, unwind=6, timeout=cap, note="filter_triples/filter_quads + to_quads/to_triples over a faulty iterator source"))
     hs.append(Harness("c15_for_each_item", timeout=cap, optional_covers=("sink fault",), note="for_each_item/for_some_item (infallible sink)"))
     hs.append(Harness("c15_stream_error_plumbing", timeout=cap, note="StreamError map_source/map_sink/reverse/inner_into"))
     return kprop.KSpec(
         package="sophia_api", crate_dir="api",
-        harness_files={"api": [os.path.join(H, "api", "c15_stream.rs")]},
+        harness_files={"api": [os.path.join(H, "api", "vt.rs"), os.path.join(H, "api", "c15_stream.rs"), os.path.join(H, "api", "c15_convert.rs")]},
         harnesses=hs, jobs=8, vecdeque=True,
         encoded=["sophia_api::source::Source::{try_for_some_item (iterator impl), try_for_each_item, for_some_item, for_each_item}",
                  "source::filter::FilterSource", "source::map::MapSource", "source::filter_map::FilterMapSource",
                  "source::StreamError::{map_source,map_sink,reverse,inner_into,is_*}", "StreamResultExt",
-                 "source::map::MapSourceIterator, source::filter_map::FilterMapSourceIterator (IntoIterator)"],
+                 "source::map::MapSourceIterator, source::filter_map::FilterMapSourceIterator (IntoIterator)",
+                 "source::convert::{ToQuads, ToTriples}, FilterTripleSource, FilterQuadSource"],
         bounds=["n <= 4 items, all u8 payloads", "source-fault index in 0..=4, sink-fault call index in 0..=5, both error payloads symbolic",
                 "all 3 chains of depth 1, all 9 of depth 2, 3 of depth 3; whole-stream and step-wise driving", "loop unwind 7 (unwinding assertions on)"],
         outside=["real parsers as sources and real io::Error kinds", "sequences longer than 4"],
@@ -43,12 +46,12 @@ def spec(tier):
 
 
 def spec_inmem(tier):
-    cap = 300 if tier == "quick" else 2700
-    names = ["c15_fg_insert_all_p", "c15_fg_insert_all_o", "c15_fg_insert_all_s", "c15_lg_insert_all", "c15_ld_insert_all", "c15_lg_remove_all", "c15_ld_remove_all"]
+    cap = 900 if tier == "quick" else 2700   # 10-35 s on the unchanged tree; patched code that buffers in a Vec needs much longer
+    names = ["c15_fg_insert_all_p", "c15_fg_insert_all_o", "c15_fg_insert_all_s", "c15_lg_insert_all", "c15_ld_insert_all", "c15_lg_remove_all", "c15_ld_remove_all", "c15_lg_collect", "c15_fg_collect", "c15_ld_collect"]
     if tier == "thorough":
         names += ["c15_fd_insert_all_o", "c15_fd_insert_all_pg"]
     US = [(r"Iterator>::any::<", 3, "loops?"), (r"__ordset::cmp::<", 5, "loops?")]
-    hs = [Harness(n, unwind=4, unwindset=US, timeout=cap, mem_gb=14,
+    hs = [Harness(n, unwind=4, unwindset=US, timeout=cap, mem_gb=14, optional_covers=("pattern selects nothing",) if n.endswith("_collect") else (),
                   note="insert_all of 2 symbolic items with a source fault or an index-full sink fault at a symbolic position; content checked through a secondary index") for n in names]
     HI = os.path.join(H, "inmem")
     return kprop.KSpec(
@@ -56,7 +59,7 @@ def spec_inmem(tier):
         harness_files={"inmem": [os.path.join(HI, "vt.rs"), os.path.join(HI, "c01_store.rs"), os.path.join(HI, "c15_insert_all.rs")]},
         harnesses=hs, ordset=True, ordset_cap=2, jobs=5,
         encoded=["MutableGraph::insert_all / MutableDataset::insert_all as seen through Generic{Fast,Light}{Graph,Dataset} (default method or override)",
-                 "sophia_inmem insert paths and secondary indexes after a faulted bulk insertion"],
+                 "sophia_inmem insert paths and secondary indexes after a faulted bulk insertion", "CollectibleGraph::from_triple_source / CollectibleDataset::from_quad_source of the stores"],
         bounds=["2 symbolic triples/quads, source fault index in 0..=2, refused term code symbolic (index full)", "ordered-set model capacity 2"],
         outside=["remove_matching / retain_matching on the real stores"],
         assumptions=["std BTreeSet replaced by an ordered-set model", "VT/VTI harness term and term-index types"],
@@ -79,17 +82,20 @@ def spec_rio(tier):
 
 
 def spec_turtle(tier):
-    cap = 300 if tier == "quick" else 2700
+    cap = 900 if tier == "quick" else 2700
     hs = [Harness("c15_nt_serializer_faults", unwind=5,
                   unwindset=[(r"BW as std::io::Write>::write$", 4, "loops?"), (r"c15_nt_ser::c15_nt_serializer_faults$", 28, "loops")],
-                  timeout=cap, mem_gb=14, note="NtSerializer::serialize_triples of <=2 lean triples into a writer with a symbolic byte budget, symbolic source fault")]
+                  timeout=cap, mem_gb=14, note="NtSerializer::serialize_triples of <=2 lean triples into a writer with a symbolic byte budget, symbolic source fault"),
+          Harness("c15_nq_serializer_faults", unwind=5,
+                  unwindset=[(r"BW as std::io::Write>::write$", 4, "loops?"), (r"c15_nq_ser::c15_nq_serializer_faults$", 36, "loops")],
+                  timeout=cap, mem_gb=14, note="NqSerializer::serialize_quads of <=2 lean quads (default or named graph), writer fault persistent or transient, symbolic source fault")]
     return kprop.KSpec(
         package="sophia_turtle", crate_dir="turtle",
-        harness_files={"turtle": [os.path.join(H, "turtle", "c15_nt_ser.rs")]},
+        harness_files={"turtle": [os.path.join(H, "turtle", "c15_nt_ser.rs"), os.path.join(H, "turtle", "c15_nq_ser.rs")]},
         harnesses=hs, jobs=2,
         encoded=["sophia_turtle::serializer::nt::NtSerializer::serialize_triples (+ write_triple/write_term IRI arm) as the consumer of a stream"],
         bounds=["<=2 triples of 1-byte IRIs, source fault index in 0..=2, writer byte budget in 0..=27"],
-        outside=["NqSerializer, Turtle/TriG serializers as consumers; io::Error kinds other than the harness writer's"],
+        outside=["Turtle/TriG serializers as consumers; io::Error kinds other than the harness writer's"],
         assumptions=["array-backed io::Write with a byte budget"],
     )
 
@@ -105,5 +111,5 @@ def replay(ctx, path):
     import json
     w = json.load(open(path))
     hn = w.get("harness", "")
-    sp = spec_inmem(ctx.tier) if "c15_insert_all" in hn else (spec_rio(ctx.tier) if "c15_rio" in hn else (spec_turtle(ctx.tier) if "c15_nt_ser" in hn else spec(ctx.tier)))
+    sp = spec_inmem(ctx.tier) if "c15_insert_all" in hn else (spec_rio(ctx.tier) if "c15_rio" in hn else (spec_turtle(ctx.tier) if ("c15_nt_ser" in hn or "c15_nq_ser" in hn) else spec(ctx.tier)))
     return kprop.replay(ctx, sp, path)
